@@ -226,6 +226,8 @@ impl BDF {
 
         let mut order = 1usize;
         let mut n_equal_steps = 0usize;
+        // Size of the last attempt rejected since the last accepted step
+        let mut failed_h: Option<Float> = None;
         let status;
 
         let mut psi = vec![0.0; n];
@@ -281,6 +283,13 @@ impl BDF {
             }
 
             if current_h < Float::MIN_POSITIVE {
+                status = Status::StepSizeTooSmall;
+                break;
+            }
+
+            // min_step is a lower bound: once an attempt no longer than it has been rejected,
+            // nothing smaller may be tried (raising the step back to min_step would repeat it forever)
+            if hmin > 0.0 && current_h < hmin && failed_h.map_or(false, |fh| fh <= hmin) {
                 status = Status::StepSizeTooSmall;
                 break;
             }
@@ -383,6 +392,7 @@ impl BDF {
                         n_equal_steps = 0;
                         lu_is_current = false;
                         steps.rejected += 1;
+                        failed_h = Some(h_try);
                         continue 'main_loop;
                     }
                 }
@@ -461,6 +471,7 @@ impl BDF {
                 current_h *= 0.5;
                 n_equal_steps = 0;
                 steps.rejected += 1;
+                failed_h = Some(h_try);
                 continue;
             }
 
@@ -491,10 +502,12 @@ impl BDF {
                 current_h *= factor;
                 n_equal_steps = 0;
                 steps.rejected += 1;
+                failed_h = Some(h_try);
                 continue;
             }
 
             steps.accepted += 1;
+            failed_h = None;
             n_equal_steps += 1;
             x = x_new;
             y.copy_from_slice(&y_new);
